@@ -23,8 +23,6 @@ from .c15 import neutralise, SEEDS, ADVERSARIAL_SEEDS, ALL_FEATURES
 CONSTANT_TYPES = {"Num", "Str", "Bytes", "NameConstant", "Ellipsis"}
 
 SIG = {
-    "str-contains-/kind=": "C01:str-constant-containing-/kind=",
-    "bytes-contains-/kind=": "C01:bytes-constant-containing-/kind=",
     "str-contains-_pos=": "C01:str-constant-containing-_pos=",
 }
 
